@@ -32,8 +32,8 @@ ANYMAT = 'R2|T2|R3|T3|m33|so3|se3'
 BASE_TEMPLATES = {
     'assertmatrix': 'm=ANYMAT, ?shape=shape',
     'ismatrix': 'm=ANYMAT|ANYVEC, shape=shape',
-    'getvector': 'v=ANYVEC|sc, ?dim=dim, ?out=out',
-    'assertvector': 'v=ANYVEC, dim=dim',
+    'getvector': 'v=ANYVEC|sc, ?dim=dim, ?out=out, ?dtype=dtype',
+    'assertvector': 'v=ANYVEC, dim=dim, ?msg=str',
     'isvector': 'v=ANYVEC|ANYMAT|sc, ?dim=dim',
     'isscalar': 'x=sc|ANYVEC|ang',
     'getunit': 'v=ang|ANYVEC, ?unit=unit',
@@ -71,7 +71,7 @@ BASE_TEMPLATES = {
     'ishom2': 'T=T2|R2|T3|m33, ?check=bool',
     'isrot2': 'R=R2|T2|m33, ?check=bool',
     'trlog2': 'T=T2|R2, ?check=bool, ?twist=bool',
-    'trexp2': 'S=so2|se2|v3|sc, ?theta=ang',
+    'trexp2': 'S=so2|se2|v3|sc, ?theta=ang, ?check=bool',
     'trinterp2': 'start=T2, end=T2, s=s01 / start=R2, end=R2, s=s01 / start=none, end=T2|R2, s=s01',
     'trprint2': 'T=T2|R2, ?label=str, ?unit=unit, ?fmt=fmt, file=stream|stream|none',
     'xyt2tr': 'xyt=v3, ?unit=unit',
@@ -98,18 +98,18 @@ BASE_TEMPLATES = {
     'tr2eul': 'T=R3|T3, ?unit=unit, ?flip=bool, ?check=bool',
     'tr2rpy': 'T=R3|T3, ?unit=unit, ?order=order, ?check=bool',
     'trlog': 'T=R3|T3, ?check=bool, ?twist=bool',
-    'trexp': 'S=so3|se3|v3|sv3|v6, ?theta=ang',
+    'trexp': 'S=so3|se3|v3|sv3|v6, ?theta=ang, ?check=bool',
     'trnorm': 'T=T3|R3',
     'trinterp': 'start=T3, end=T3, s=s01 / start=R3, end=R3, s=s01 / start=none, end=T3|R3, s=s01',
     'delta2tr': 'd=v6',
     'trinv': 'T=T3',
     'tr2delta': 'T0=T3, ?T1=T3',
     'tr2jac': 'T=T3, ?samebody=bool',
-    'trprint': 'T=T3|R3, ?orient=orient, ?unit=unit, ?label=str, ?fmt=fmt, file=stream|stream|none',
+    'trprint': 'T=T3|R3, ?orient=orient, ?unit=unit, ?label=str, ?fmt=fmt, ?degsym=bool, file=stream|stream|none',
     't2r': 'T=T3|T2, ?check=bool',
     'r2t': 'R=R3|R2, ?check=bool',
     'tr2rt': 'T=T3|T2, ?check=bool',
-    'rt2tr': 'R=R3, t=v3 / R=R2, t=v2',
+    'rt2tr': 'R=R3, t=v3, ?check=bool / R=R2, t=v2, ?check=bool',
     'Ab2M': 'A=m33|R3, b=v3',
     'isR': 'R=R3|R2|m33, ?tol=tol',
     'isskew': 'S=so3|so2|m33, ?tol=tol',
@@ -142,15 +142,15 @@ BASE_TEMPLATES = {
 
 # constructors: class -> templates
 CTOR_TEMPLATES = {
-    'SO2': 'arg=R2|L:R2|ang|v3|SAME|LO:SO2, ?unit=unit / ',
-    'SE2': 'x=T2|L:T2|ang|v2|v3|SAME|LO:SE2 / x=sc, y=sc / x=sc, y=sc, theta=ang, ?unit=unit / ',
-    'SO3': 'arg=R3|L:R3|SAME|LO:SO3 / ',
-    'SE3': 'x=T3|L:T3|v3|tN|SAME|LO:SE3 / x=sc, y=sc, z=sc / ',
-    'Quaternion': 's=v4|L:v4|SAME|LO:Quaternion / s=sc, v=v3 / ',
+    'SO2': 'arg=R2|L:R2|ang|v3|SAME|LO:SO2, ?unit=unit, ?check=bool / ',
+    'SE2': 'x=T2|L:T2|ang|v2|v3|SAME|LO:SE2, ?unit=unit, ?check=bool / x=sc, y=sc / x=sc, y=sc, theta=ang, ?unit=unit / ',
+    'SO3': 'arg=R3|L:R3|SAME|LO:SO3, ?check=bool / ',
+    'SE3': 'x=T3|L:T3|v3|tN|SAME|LO:SE3, ?check=bool / x=sc, y=sc, z=sc / ',
+    'Quaternion': 's=v4|L:v4|SAME|LO:Quaternion, ?check=bool / s=sc, v=v3 / ',
     # unit quaternions double-cover rotations: values of both signs matter, so 4-vectors dominate
     'UnitQuaternion': 's=q|q|q|q|L:q|L:q|R3|T3|qN|obj:SO3|obj:SE3|SAME|LO:UnitQuaternion|LO:SO3, ?norm=bool / s=sc, v=v3|sv3 / ',
-    'Twist2': 'arg=v3|L:v3|se2|SAME|obj:SE2|LO:Twist2 / arg=v2, w=sc / ',
-    'Twist3': 'arg=v6|L:v6|se3|SAME|obj:SE3|LO:Twist3 / arg=v3, w=v3|uv3 / ',
+    'Twist2': 'arg=v3|L:v3|se2|SAME|obj:SE2|LO:Twist2, ?check=bool / arg=v2, w=sc / ',
+    'Twist3': 'arg=v6|L:v6|se3|SAME|obj:SE3|LO:Twist3, ?check=bool / arg=v3, w=v3|uv3 / ',
     'Plucker': 'v=v6|L:v6|SAME|LO:Plucker / v=v3, w=v3|uv3',
     'Plane': 'c=v4',
     'SpatialVelocity': 'value=v6|L:v6|SAME / ',
@@ -168,9 +168,13 @@ MEMBER_TEMPLATES = {
     'Empty': '',
     'SO2.Exp': 'S=so2|sc|L:so2, ?check=bool',
     'SE2.Exp': 'S=se2|v3|L:se2, ?check=bool',
-    'SO3.Exp': 'S=so3|v3|sv3|L:so3, ?check=bool',
+    'SO3.Exp': 'S=so3|v3|sv3|L:so3, ?check=bool, ?so3=bool',
     'SE3.Exp': 'S=se3|v6|L:se3, ?check=bool',
     'Rand': '?N=posint',
+    'SO2.Rand': '?N=posint, ?arange=v2, ?unit=unit',
+    'SE2.Rand': '?N=posint, ?xrange=v2, ?yrange=v2, ?arange=v2, ?unit=unit',
+    'SE3.Rand': '?N=posint, ?xrange=v2, ?yrange=v2, ?zrange=v2',
+    'Twist3.Rand': '?N=posint, ?xrange=v2, ?yrange=v2, ?zrange=v2',
     'AngVec': 'theta=ang, v=v3|uv3, ?unit=unit',
     'Eul': 'angles=v3|sv3|tN, ?unit=unit',
     'EulerVec': 'w=v3|sv3',
@@ -187,6 +191,8 @@ MEMBER_TEMPLATES = {
     'Pure': 'v=v3|sv3',
     'DualQuaternion.Pure': 'x=v3', 'UnitDualQuaternion.Pure': 'x=v3',
     'Vec3': 'vec=sv3',
+    'Twist3.Rx': 'theta=ang|v3, ?unit=unit', 'Twist3.Ry': 'theta=ang|v3, ?unit=unit, ?t=v3',
+    'Twist3.Rz': 'theta=ang|v3, ?unit=unit, ?t=v3',
     'Twist3.Prismatic': 'a=v3|uv3', 'Twist2.Prismatic': 'a=v2',
     'Twist3.Revolute': 'a=v3|uv3, q=v3, ?p=sc', 'Twist2.Revolute': 'q=v2',
     'PQ': 'P=v3, Q=v3', 'Planes': 'pi1=obj:Plane|v4, pi2=obj:Plane|v4',
